@@ -12,6 +12,8 @@
  *   hex  <file>                                         the bytes of the file (for footer experiments on files carquet wrote)
  *
  *   mode   f = carquet_reader_open (stdio)   m = carquet_reader_open with use_mmap   b = carquet_reader_open_buffer
+ *   verify 0|1 verify_checksums, optionally followed by further carquet_reader_options_t fields:
+ *          ,b<buffer_size>  ,t<num_threads>      e.g. 1,b219,t1   (fields not given keep carquet_reader_options_init's value)
  *   file   w:<codec>:<coldefs>:<rowgroups>   written with carquet_writer (page_size = 1: every write_batch = one page)
  *            coldefs   = name=type[?] , ...       type = bool|i32|i64|f32|f64|ba|fl<N>   ? = OPTIONAL
  *            rowgroups = rg | rg ...      rg = chunk ; chunk ... (one per column)   chunk = page / page ...
@@ -294,10 +296,28 @@ static int ensure_file(const char* spec, char* why, size_t whylen) {
 
 /* ------------------------------------------------------------------ reading */
 
+/* reader options of the current case beyond verify_checksums (set by parse_opts) */
+static long long g_opt_buffer = -1;
+static int g_opt_threads = -1;
+
+static int parse_opts(const char* tok) {
+    g_opt_buffer = -1; g_opt_threads = -1;
+    const char* p = strchr(tok, ',');
+    while (p) {
+        p++;
+        if (*p == 'b') g_opt_buffer = atoll(p + 1);
+        else if (*p == 't') g_opt_threads = atoi(p + 1);
+        p = strchr(p, ',');
+    }
+    return atoi(tok);
+}
+
 static carquet_reader_t* open_reader(char mode, int verify, carquet_error_t* err) {
     carquet_reader_options_t ro;
     carquet_reader_options_init(&ro);
     ro.verify_checksums = verify ? true : false;
+    if (g_opt_buffer >= 0) ro.buffer_size = (size_t)g_opt_buffer;
+    if (g_opt_threads >= 0) ro.num_threads = g_opt_threads;
     if (mode == 'b') return carquet_reader_open_buffer(g_buf, g_buf_len, &ro, err);
     ro.use_mmap = (mode == 'm');
     return carquet_reader_open(g_tmp, &ro, err);
@@ -556,13 +576,13 @@ int main(void) {
         if (h_ntok == 0) { puts("ERR empty"); fflush(stdout); continue; }
         if (!strcmp(h_tok[0], "col") && h_ntok == 7) {
             if (ensure_file(h_tok[3], why, sizeof why) != 0) printf("ERR file %s\n", why);
-            else run_col(h_tok[1][0], atoi(h_tok[2]), atoi(h_tok[4]), atoi(h_tok[5]), h_tok[6]);
+            else run_col(h_tok[1][0], parse_opts(h_tok[2]), atoi(h_tok[4]), atoi(h_tok[5]), h_tok[6]);
         } else if (!strcmp(h_tok[0], "bat") && h_ntok == 6) {
             if (ensure_file(h_tok[3], why, sizeof why) != 0) printf("ERR file %s\n", why);
-            else run_bat(h_tok[1][0], atoi(h_tok[2]), atoi(h_tok[4]), h_tok[5]);
+            else run_bat(h_tok[1][0], parse_opts(h_tok[2]), atoi(h_tok[4]), h_tok[5]);
         } else if (!strcmp(h_tok[0], "meta") && h_ntok == 4) {
             if (ensure_file(h_tok[3], why, sizeof why) != 0) printf("ERR file %s\n", why);
-            else run_meta(h_tok[1][0], atoi(h_tok[2]));
+            else run_meta(h_tok[1][0], parse_opts(h_tok[2]));
         } else if (!strcmp(h_tok[0], "hex") && h_ntok == 2) {
             if (ensure_file(h_tok[1], why, sizeof why) != 0) printf("ERR file %s\n", why);
             else { printf("OK "); h_puthex(g_buf, g_buf_len); putchar('\n'); }
@@ -573,6 +593,7 @@ int main(void) {
             if (ensure_file(spec, why, sizeof why) != 0) printf("ERR file %s\n", why);
             else {
                 carquet_error_t err = CARQUET_ERROR_INIT;
+                g_opt_buffer = -1; g_opt_threads = -1;
                 carquet_reader_t* rd = open_reader(h_tok[1][0], 1, &err);
                 if (rd) { puts("OK"); carquet_reader_close(rd); } else puts("ERR");
             }
